@@ -566,7 +566,8 @@ def _rot_type(tys, a):
     if a["turns"] % 2:
         n[a["a"]], n[a["b"]] = n[a["b"]], n[a["a"]]
         e[a["a"]], e[a["b"]] = e[a["b"]], e[a["a"]]
-    return with_(t, n=n, edges=e, grp=t["grp"] + f"|rot{a['a']},{a['b']},{a['turns'] % 4},{a['ref']}")
+    # the rotated corners go through cos/sin(k*pi/2) in floats: not exactly on the dyadic grid any more
+    return with_(t, n=n, edges=e, grp=t["grp"] + f"|rot{a['a']},{a['b']},{a['turns'] % 4},{a['ref']}", exact=False)
 
 
 def clone(f):
